@@ -2,6 +2,7 @@
 from __future__ import annotations
 
 import ast
+import re
 import z3
 
 from . import source
@@ -432,21 +433,60 @@ class CallsMixin(ExecBase):
             self.mod = saved
 
     # ------------------------------------------------------------------------------------------
+    def ind_setup(self, ind, node):
+        """-> independent(e): the formula  e == e[src := src']  (declassified applications held fixed)"""
+        tainted = self.__dict__.setdefault("tainted_refs", set())
+        srcs = []
+        cache = self.__dict__.setdefault("_ind_src_cache", {})
+        for sname in ind["sources"]:
+            if sname in cache:
+                v = cache[sname]
+            elif sname.isidentifier():
+                v = cache[sname] = self.entry_pre.vars.get(sname) if getattr(self, "entry_pre", None) is not None else None
+            else:
+                # a source given as an expression over the region inputs (e.g. p['original_name']): its value at region entry
+                try:
+                    sub_ = self.entry_pre.fork()
+                    v = self.as_val(self.eval(ast.parse(sname, mode="eval").body, sub_), sub_, node)
+                except OutOfSubset:
+                    v = None
+                cache[sname] = v
+            if isinstance(v, Val):
+                srcs.append((re.sub(r"\W+", "_", sname), v.any() if v.tag != "any" and not sname.isidentifier() else v.e))
+            elif isinstance(v, Ref):
+                tainted.add(v.id if hasattr(v, "id") else id(v))
+        self.ind_sources = srcs
+        subst = [(e, z3.Const(f"{n}!other", e.sort())) for n, e in srcs]
+        declass = tuple(ind.get("declassify", ()))
+
+        def independent(e):
+            """e == e[src := src'], where applications of a declassified function (the escaping primitive) to a source-dependent
+            argument count as opaque constants: e may vary with the source only THROUGH them"""
+            if declass:
+                apps, todo, seen_ = {}, [e], set()
+                while todo:
+                    t = todo.pop()
+                    if t.get_id() in seen_:
+                        continue
+                    seen_.add(t.get_id())
+                    if z3.is_app(t):
+                        nm_ = t.decl().name()
+                        if t.num_args() > 0 and any(nm_ == "call." + d_ or nm_.endswith("." + d_) or nm_.endswith(":" + d_) for d_ in declass):
+                            apps[t.get_id()] = t
+                            continue
+                        todo.extend(t.children())
+                if apps:
+                    e = z3.substitute(e, *[(a_, z3.Const(f"declassified!{i_}", a_.sort())) for i_, a_ in enumerate(apps.values())])
+            return e == z3.substitute(e, *subst)
+        return independent
+
     def independence_obligation(self, ind, name, short, recv, args, kwargs, st, node):
         """Frame condition as non-interference: nothing handed to this callee (receiver, arguments, keyword arguments) depends on the
         declared source inputs.  For a value, the obligation is  v == v[src := src']  with src' fresh (valid exactly when v does not
         vary with the source); an object is tracked by reference: one built by a constructor from a dependent argument is dependent."""
         last = short.split(".")[-1]
         tainted = self.__dict__.setdefault("tainted_refs", set())
-        srcs = []
-        for sname in ind["sources"]:
-            v = self.entry_pre.vars.get(sname) if getattr(self, "entry_pre", None) is not None else None
-            if isinstance(v, Val):
-                srcs.append((sname, v.e))
-            elif isinstance(v, Ref):
-                tainted.add(v.id if hasattr(v, "id") else id(v))
-        self.ind_sources = srcs
-        subst = [(e, z3.Const(f"{n}!other", e.sort())) for n, e in srcs]
+        independent = self.ind_setup(ind, node)
         parts, deps = [], []
         items = [("receiver", recv)] + [(f"argument {i}", a[1] if isinstance(a, tuple) else a) for i, a in enumerate(args)] + [(f"keyword {k}", v) for k, v in kwargs.items()]
         for what, v in items:
@@ -459,10 +499,10 @@ class CallsMixin(ExecBase):
                 else:
                     c_ = st.cell(v)
                     if getattr(c_, "val", None) is not None and isinstance(c_.val, Val):
-                        parts.append(c_.val.e == z3.substitute(c_.val.e, *subst))
+                        parts.append(independent(c_.val.e))
                 continue
             if isinstance(v, Val):
-                parts.append(v.e == z3.substitute(v.e, *subst))
+                parts.append(independent(v.e))
         dependent_syntactically = any(not z3.is_true(z3.simplify(p_)) for p_ in parts)
         allowed = name in ind.get("allowed", ()) or short in ind.get("allowed", ()) or last in ind.get("allowed", ())
         self.last_call_dependent = dependent_syntactically
@@ -525,7 +565,8 @@ class CallsMixin(ExecBase):
         else:
             det_flag = None
             res = Val("any", fresh("ret_" + short.replace(".", "_"), Any))
-        if ind is not None and getattr(self, "last_call_dependent", False) and self.ind_sources:
+        if (ind is not None and getattr(self, "last_call_dependent", False) and self.ind_sources
+                and not any(short == d_ or short.endswith("." + d_) for d_ in ind.get("declassify", ()))):
             # the result of a callee that was handed a source-dependent value is itself source-dependent (no laundering through opaque calls)
             srcs_ = [e_ for _n, e_ in self.ind_sources]
             res = Val("any", z3.Function("dep." + short, Any, *[e_.sort() for e_ in srcs_], Any)(res.e, *srcs_))
